@@ -1,6 +1,7 @@
 package transaction
 
 import (
+	"github.com/KevoDB/kevo/pkg/verifhook"
 	"sync"
 	"sync/atomic"
 	"time"
@@ -261,9 +262,11 @@ func (tx *TransactionImpl) Commit() error {
 		}
 
 		// Apply the batch atomically
+		verifhook.At("tx.commit.beforeApply")
 		err = tx.storage.ApplyBatch(walBatch)
 	}
 
+	verifhook.At("tx.commit.applied")
 	// Release the write lock
 	tx.releaseWriteLock()
 
